@@ -48,7 +48,7 @@ theorem publish_accepted_respects_limits (p : Publish) (s : Settings) (r : Optio
       Spec.publishDynamicOk (limitsOf s) p = true ∧
       ∃ rl pl sz, publishLengths5 p (r.getD {}) = some (rl, pl) ∧ vliSize rl = some sz ∧
         1 + rl + sz ≤ s.maximumPacketSize := by
-  unfold validateOutboundInternal vPublishInternal
+  unfold validateOutboundInternal vPublishInternal vPublishInternalWith
   simp only [bind_ok_iff, okIf_ok]
   intro ⟨hsize, _, hret, hqos⟩
   constructor
@@ -68,6 +68,36 @@ theorem publish_accepted_respects_limits (p : Publish) (s : Settings) (r : Optio
         exact ⟨rl, pl, sz, rfl, hv, by simpa using hsize⟩
 
 def accepted (r : VRes) : Bool := match r with | .ok _ => true | .error _ => false
+
+/-- the encoded lengths of a PUBLISH are those of the same packet without payload plus the payload's length (what lets the
+    correspondence check feed payloads of 4 GiB and more, which no text protocol can carry, as a bare length) -/
+theorem publishLengths5_payload (p : Publish) (b : Bytes) (r : Resolution) :
+    publishLengths5 { p with payload := some b } r =
+      (publishLengths5 { p with payload := none } r).map (fun l => (l.1 + b.length, l.2)) := by
+  unfold publishLengths5
+  simp only []
+  cases subIdsLen p.subscriptionIds with
+  | none => rfl
+  | some sid =>
+    simp only []
+    split <;> simp
+
+/-- **A PUBLISH whose encoded size cannot be expressed in the fixed header (remaining length above 268,435,455 - for
+    example a payload of 4 GiB) never passes send-time validation**, whatever maximum packet size the server announced: it
+    is failed locally instead of being written with a truncated length. -/
+theorem oversized_publish_never_accepted (p : Publish) (s : Settings) (r : Option Resolution) (rl pl : Nat)
+    (hl : publishLengths5 p (r.getD {}) = some (rl, pl)) (hbig : rl > 268435455) :
+    validateOutboundInternal (.publish p) (some s) 0 r = .error .encodingFailure := by
+  have hv : vliSize rl = none := by
+    unfold vliSize
+    have h1 : ¬ rl < 128 := by omega
+    have h2 : ¬ rl < 16384 := by omega
+    have h3 : ¬ rl < 2097152 := by omega
+    have h4 : ¬ rl < 268435456 := by omega
+    simp [h1, h2, h3, h4]
+  unfold validateOutboundInternal vPublishInternal vPublishInternalWith sizeCheck
+  simp [hl, hv]
+  rfl
 
 /-- **The CONNECT built from the options passes validation only if its will is a valid message**: the will topic and the
     will's response topic are topic names (non-empty, no wildcard, at most 65535 bytes) and every string and binary field of
